@@ -16,7 +16,8 @@ From Verif Require Import Base.Result Base.PyDict Model.Domain Model.Exec Model.
   Spec.Pddl Spec.Rename
   Base.Sexp Model.Types
   Proofs.C18_Dict Proofs.C18_Alpha Proofs.C18_Denote Proofs.C18_Exec Proofs.C18_Check Proofs.C18_Parser Proofs.C18_Legacy
-  Proofs.C18_Main Proofs.C18_Seq Proofs.C18_ParsedDomain.
+  Proofs.C18_Main Proofs.C18_Seq Proofs.C18_ParsedDomain
+  Model.ChangeSignatureAlpha Proofs.C18_AlphaStep.
 Import ListNotations.
 Open Scope string_scope.
 Open Scope list_scope.
@@ -218,6 +219,18 @@ Proof. exact (rename_same_behaviour dom a m). Qed.
 Theorem C18_refuted : ~ C18_full_statement.
 Proof. exact full_statement_refuted. Qed.
 
+(* ---- the PROPOSED repair of the quantified-variable half of D75 (proposed_fixes/D75b.diff, not in /repo; its model is
+        Model.ChangeSignatureAlpha, used by Corr.C18 only when Corr.C18Flag.d75b_patched is set): a quantifier renames its
+        own variable to a fresh name when a new name equals it.  Wherever no entry of the mapping lands on a quantified
+        variable of the action - in particular under the side condition of C18_rename, for a dict whose moved keys are
+        names of the action - that model returns exactly what change_signature returns, so every theorem above carries
+        over to the repaired code on the fragment it covers ---- *)
+Theorem C18_alpha_step_inactive (dom : mdomain) (a a' : maction) (m : renaming) :
+  renaming_ok dom a m = true -> NoDup (dkeys m) ->
+  (forall k x, In (k, x) m -> k <> x -> In k (names_action a)) ->
+  change_signature_a m a = Ok a' -> a' = change_signature m a.
+Proof. exact (change_signature_a_ok dom a a' m). Qed.
+
 (* ---- what the repair changed (model of the code before D23, Model.ChangeSignature.legacy_change_signature) ---- *)
 (* the old in-place loop was right exactly where the repository's tests used it: every key to a fresh name *)
 Theorem C18_legacy_partial {V} (m : renaming) (sg : pydict V) :
@@ -254,5 +267,6 @@ Print Assumptions C18_rename_seq.
 Print Assumptions C18_roundtrip.
 Print Assumptions C18_rename_partial.
 Print Assumptions C18_refuted.
+Print Assumptions C18_alpha_step_inactive.
 Print Assumptions C18_legacy_partial.
 Print Assumptions C18_legacy_refuted.
